@@ -3,6 +3,7 @@ Driver ops of C11 (harness/cc/totality*.go):
   cc  <hex> <expect> <gen>          -> run         (whole compilations are not modelled; the line
                                                     exists so that the harness re-evaluates its oracle)
   probe <position> <name> <gen>     -> run         (naming probe program, totality_names.go)
+  cli <gen or -> <r 0|1> <kinds,..> -> main.go on k input files: exit=<status> out=<y|n|- per file>
   stc <hex>                         -> snakeToCamel
   ttl <hex>                         -> title
   tsn <hex name> <hex service>      -> titleServiceName
@@ -214,6 +215,24 @@ def showOpts (m : List (Name × Name)) : String :=
 def stepCompile (op : String) (args : List String) : Option String :=
   match op, args with
   | "cc", [_, _, _] => some "run"
+  | "cli", [g, _, ks] => do
+    -- kinds: v valid, e empty (valid), y syntax error, m semantic error, x missing, d directory
+    let kinds := ks.splitOn ","
+    let verdicts := kinds.map fun k => if k == "v" || k == "e" then FileVerdict.valid else FileVerdict.invalid
+    let gen := if g == "-" then none else some g.toList
+    let r := cliMain gen verdicts
+    -- per file: only valid non-empty files are compared (y = compiled without error: its output
+    -- exists; n = not compiled, or compiled and failed); json overwrites its single output file
+    let genOk := match gen with
+      | some gg => genAccepted gg
+      | none => false
+    let isJson := g.startsWith "json"
+    let outs := (List.range kinds.length).map fun i =>
+      let k := kinds[i]!
+      if k != "v" || isJson then "-"
+      else if genOk && (i + 1 < r.compiled || (i + 1 == r.compiled && r.exit == 0)) then "y"
+      else "n"
+    pure s!"exit={r.exit} out={String.join outs}"
   | "probe", [_, _, _] => some "run"
   | "stc", [x] => do
     let n ← nameOfHex x
